@@ -140,18 +140,19 @@ def get_username(uid):
 def set_owner_process(uid, gid, initgroups=False):
     """ set user and group of workers processes """
 
-    if gid:
-        if initgroups:
-            try:
-                username = get_username(uid)
-            except KeyError:
-                initgroups = False
+    if initgroups:
+        try:
+            username = get_username(uid)
+        except KeyError:
+            initgroups = False
 
-        # initgroups() only sets the supplementary groups
-        if initgroups:
-            os.initgroups(username, gid)
-        if gid != os.getgid():
-            os.setgid(gid)
+    # initgroups() only sets the supplementary groups; it is also needed
+    # when the group is left as it is (gid 0: only the user is configured)
+    if initgroups:
+        os.initgroups(username, gid)
+
+    if gid and gid != os.getgid():
+        os.setgid(gid)
 
     if uid and uid != os.getuid():
         os.setuid(uid)
